@@ -1,20 +1,33 @@
 #!/usr/bin/env python3
-"""Turns .work/mutres2.log (written by batch_mut2.sh) into seeded/RESULTS.json (latest line per id wins)."""
+"""Turns .work/mutres2.log and .work/mutres5.log (written by the batch scripts) into seeded/RESULTS.json.
+Latest line per id wins; entries of seeded/NEUTRALISED.json (changes that a later fix made harmless: the author's
+own demonstration passes with the patch on the repaired tree) override the log."""
 import json, re, os
 V = os.path.dirname(os.path.abspath(__file__))
 res = {}
 p = os.path.join(V, "seeded", "RESULTS.json")
 if os.path.exists(p):
     res = json.load(open(p))
-for line in open(os.path.join(V, ".work", "mutres2.log")):
-    m = re.match(r"^(C\d+-\d+): (.*)$", line.strip())
-    if not m:
+for log in ("mutres2.log", "mutres5.log"):
+    lp = os.path.join(V, ".work", log)
+    if not os.path.exists(lp):
         continue
-    mid, rest = m.group(1), m.group(2)
-    caught = "MUTANT CAUGHT" in rest
-    chk = re.search(r"\((C\d+) (quick|thorough)\)", rest)
-    key = re.search(r"key=(\S+)", rest)
-    res[mid] = {"caught": caught, "caught_by": ("%s %s" % (chk.group(1), chk.group(2)) if (caught and chk) else ("MISSED" if "MISSED" in rest else rest[:60])),
-                "key": key.group(1) if key else ""}
+    for line in open(lp):
+        m = re.match(r"^(C\d+-\d+): (.*)$", line.strip())
+        if not m:
+            continue
+        mid, rest = m.group(1), m.group(2)
+        caught = "MUTANT CAUGHT" in rest
+        chk = re.search(r"\((C\d+) (quick|thorough)\)", rest)
+        key = re.search(r"key=(\S+)", rest)
+        if not caught and mid in res and res[mid]["caught"] and "DOES NOT APPLY" in rest:
+            continue
+        if caught and not key and mid in res and res[mid]["caught"] and res[mid]["key"]:
+            continue  # keep the entry that recorded the class key
+        res[mid] = {"caught": caught, "caught_by": ("%s %s" % (chk.group(1), chk.group(2)) if (caught and chk) else ("MISSED" if "MISSED" in rest else rest[:60])),
+                    "key": key.group(1) if key else ""}
+res.update(json.load(open(os.path.join(V, "seeded", "NEUTRALISED.json"))))
+res = {k: v for k, v in res.items() if os.path.isdir(os.path.join(V, "seeded", k))}
 json.dump(res, open(p, "w"), indent=1, sort_keys=True)
-print(len(res), "results;", sum(1 for v in res.values() if v["caught"]), "caught")
+print(len(res), "results;", sum(1 for v in res.values() if v["caught"]), "caught;", sum(1 for v in res.values() if "neutralised" in v["caught_by"]), "neutralised;",
+      [k for k, v in res.items() if not v["caught"] and "neutralised" not in v["caught_by"]])
